@@ -39,6 +39,7 @@ type Opts struct {
 	P4          bool   // UP4 datapath against the harness' own P4Runtime server
 	P4Slice     int
 	P4DefaultTC int
+	P4CtrSize   int // >0: the served P4Info declares this many cells for the PDR counters (default: as shipped)
 	P4QfiTC     map[string]int // qfi_tc_mapping
 	P4Clear     bool           // clear_state_on_restart
 	P4Access    string         // access_ip (CIDR)
@@ -110,6 +111,9 @@ func New(o Opts) (*Sys, error) {
 		s.P4, err = NewFakeP4(filepath.Join(repo, "conf/p4/bin/p4info.txt"))
 		if err != nil {
 			return nil, err
+		}
+		if o.P4CtrSize > 0 {
+			s.P4.SetCounterSize(int64(o.P4CtrSize))
 		}
 		if err := s.P4.Start(); err != nil {
 			return nil, err
